@@ -12,9 +12,13 @@ import opmods
 from common import prove, leanchecker
 from vlib import log
 
-PROP = "C01"
-MODULES = ["W2c2Verif.Props.C01", "W2c2Verif.Props.C01Fallback", "W2c2Verif.Props.C01Ops"]
 GENS = [("Macros", "gen_macros"), ("EmitTable", "gen_emit")]
+CFG = {
+  "C01": {"modules": ["W2c2Verif.Props.C01", "W2c2Verif.Props.C01Fallback", "W2c2Verif.Props.C01Ops"],
+          "macro_ops": ro.int_ops, "is_mine": opmods.is_int_op, "spec": True},
+  "C02": {"modules": ["W2c2Verif.Props.C02", "W2c2Verif.Props.C02Ops"],
+          "macro_ops": ro.float_ops, "is_mine": lambda o: not opmods.is_int_op(o), "spec": False},
+}
 
 
 def spec_line(op, vals):
@@ -48,19 +52,21 @@ def cases_for(rng, ops, n_random):
     return cases
 
 
-def run(tier):
+def run(tier, PROP="C01"):
+    cfg = CFG[PROP]
+    MODULES = cfg["modules"]
     chk = vlib.Check(PROP, tier)
-    chk.coverage["trusted_base"] = list(vlib.GLOBAL_TRUSTED) + [
+    chk.coverage["trusted_base"] = list(vlib.GLOBAL_TRUSTED) + ([] if PROP == "C01" else ["CPU/libm float arithmetic (+ - * / sqrt ceil floor trunc nearbyint, int<->float and float<->float conversions) coincides with the exact soft-float CSem.Float (tested on every run, not proved)"]) + [
         "__builtin_clz/ctz/popcount(ll) mean what gcc documents (undefined at 0 for clz/ctz)"]
     chk.assumptions = ["emitted statements are evaluated by gcc/clang as CSem evaluates them (exercised by e2e)"]
     pr = prove(chk, MODULES, GENS)
-    ops = ro.int_ops()
+    ops = cfg["macro_ops"]()
     n_random = 300 if tier == "quick" else 20000
     broken = []           # (description, details)
     if not pr["build_ok"]:
         for e in pr["errors"]:
             broken.append(e)
-    with vlib.scratch("c01-") as d:
+    with vlib.scratch(PROP.lower() + "-") as d:
         repo = vlib.copy_repo(os.path.join(d, "repo"))
         try:
             exe = ro.build(repo, d, ops)
@@ -70,7 +76,7 @@ def run(tier):
         cases = cases_for(chk.rng, ops, n_random)
         lines = [ro.line_for(op, vals) for op, vals in cases]
         real = ro.run_lines(exe, lines) if exe else None
-        spec = vlib.DriverProc().batch([spec_line(op, vals) for op, vals in cases]) if pr["driver_ok"] else None
+        spec = vlib.DriverProc().batch([spec_line(op, vals) for op, vals in cases]) if (pr["driver_ok"] and cfg["spec"]) else None
         model = vlib.DriverProc().batch(lines) if pr["driver_ok"] else None
         chk.coverage["rule"] = ("every integer macro/fallback × boundary operands {0,1,-1,INT_MIN,INT_MAX,w-1,w,w+1,2^k,2^k-1,...} "
                                 "and seeded random operands; a case is the (macro, cfg, operands) triple; non-trivial = distinct triple; "
@@ -85,18 +91,20 @@ def run(tier):
             chk.count_case(key, True, sample)
             hist[op[0] + "/" + op[1]] = hist.get(op[0] + "/" + op[1], 0) + 1
             s_ans = spec_as_val(spec[i], op[3]) if spec else None
+            if not cfg["spec"] and model:   # float macros: the specification of the macro is the theorem; compare real vs model
+                s_ans = None
             # 1. the property itself on the real code: real macro vs specification
             if real and s_ans and not ro.same_result(real[i], s_ans):
-                chk.violation(f"{op[0]}-{op[1]}-real-vs-spec",
+                chk.violation(f"{op[0]}-{op[1]}-real-vs-spec" if PROP == "C01" else f"{op[0]}-{op[1]}-real-vs-spec",
                               f"{op[0]} ({op[1]}) on the real header returns `{real[i]}`, the specification requires `{s_ans}`",
                               {"line": lines[i], "real": real[i], "spec": s_ans,
-                               "replay_cmd": f"python3 tools/check.py C01 --replay <this file>"}, True)
+                               "replay_cmd": f"python3 tools/check.py {PROP} --replay <this file>"}, True)
             # 2. the tie: regenerated model vs real macro
             if real and model and not ro.same_result(real[i], model[i]):
                 broken.append({"kind": "correspondence", "msg": f"runtime-ops: `{lines[i]}` real `{real[i]}` model `{model[i]}`"})
         chk.coverage["op_histogram"] = hist
         # ---- end-to-end per opcode: real w2c2 -> gcc  vs  model of the emitted statement  vs  Spec.numOp
-        nops = [o for o in opmods.numeric_ops() if opmods.is_int_op(o)]
+        nops = [o for o in opmods.numeric_ops() if cfg["is_mine"](o)]
         try:
             oexe, oc = opmods.build_harness(repo, d, nops)
         except Exception as e:
@@ -142,16 +150,16 @@ def run(tier):
     return chk.finish()
 
 
-def replay(path):
+def replay(path, PROP="C01"):
     import json
+    cfg = CFG[PROP]
     r = json.load(open(path))
-    chk = vlib.Check(PROP, "quick")
     with vlib.scratch("c01r-") as d:
         repo = vlib.copy_repo(os.path.join(d, "repo"))
         if r.get("kind") == "e2e":
-            exe, _ = opmods.build_harness(repo, d, [o for o in opmods.numeric_ops() if opmods.is_int_op(o)])
+            exe, _ = opmods.build_harness(repo, d, [o for o in opmods.numeric_ops() if cfg["is_mine"](o)])
         else:
-            exe = ro.build(repo, d, ro.int_ops())
+            exe = ro.build(repo, d, cfg["macro_ops"]())
         out = ro.run_lines(exe, [r["line"]])[0]
     print(f"replay {r['line']!r}: real `{out}`, specification `{r.get('spec')}`")
     return 0 if ro.same_result(out, r.get("spec", "")) else 1
